@@ -1422,6 +1422,27 @@ example : Total exNested :=
 example : Good ⟨⟨[0, 1], 4⟩, fun _ => ⟨.root, [5], [6]⟩⟩ [3] (.obj 3) :=
   ⟨⟨by decide, by decide⟩, ⟨rfl, trivial⟩, by simp, by intro o ho; simp at ho; subst ho; exact ⟨by decide, by decide⟩⟩
 
+/-- The splitter, `MakeArray`, and the index arithmetic and loops of `@select` / `@slice` are the code the model
+    mirrors (`Splitter.Next`/`Done`, `C17Extra.nextOk`/`makeArrayLoop`, `selectIndex` and the `i == searchIndex`
+    loop of `selectStage`, `sliceStart` with its clamp and the guard/body of `sliceStage`), statement by statement,
+    regenerated from /repo: the advance by `len(s.Delim)`, the clamp `if realStart < 0 { realStart = 0 }`, the
+    comparison `i-realStart < sliceLen` are the repaired forms of F9 and F8. -/
+theorem splitter_and_index_code_matches_source :
+    Gen.C17.splitterNext = ["if s.next < 0 { return \"\" }", "idx := strings.Index(s.S[s.next:], s.Delim)",
+      "if idx < 0 { ret = s.S[s.next:] s.next = -1 return }", "idx += s.next", "ret = s.S[s.next:idx]",
+      "s.next = idx + len(s.Delim)", "return"] ∧
+    Gen.C17.splitterNextOk = ["ok = !s.Done()", "ret = s.Next()", "return"] ∧
+    Gen.C17.splitterDone = ["return s.next < 0"] ∧
+    Gen.C17.makeArrayCode = ["var sb strings.Builder",
+      "for i := 0; i < len(args); i++ { if i > 0 { sb.WriteRune(ArraySeparator) } sb.WriteString(args[i]) }",
+      "return sb.String()"] ∧
+    Gen.C17.selectIndexCode = ["if searchIndex < 0 { searchIndex += strings.Count(splitter.S, splitter.Delim) + 1 }",
+      "for i := 0; !splitter.Done(); i++ { val := splitter.Next() if i == searchIndex { return val } }"] ∧
+    Gen.C17.sliceIndexCode = [
+      "if realStart < 0 { realStart += strings.Count(splitter.S, ArraySeparatorString) + 1 if realStart < 0 { realStart = 0 } }",
+      "for i := 0; (sliceLen < 0 || i-realStart < sliceLen) && !splitter.Done(); i++ { val := splitter.Next() if i >= realStart { if i > realStart { ret.WriteString(ArraySeparatorString) } ret.WriteString(val) } }"] := by
+  decide +kernel
+
 /-! ## … and with the other goroutines running in between
 
 `Model/C17HeapI.lean`: the same machine with an interference oracle applied at every scheduling point (after
